@@ -6,6 +6,30 @@ func register(c *PropConfig) { propConfigs[c.ID] = c }
 
 func init() {
 	register(&PropConfig{
+		ID: "C13",
+		Replay: func(r *Run, o *Obligation) *ReplayResult {
+			if r.replayCache == nil {
+				r.replayCache = map[string]*ReplayResult{}
+			}
+			if rr, ok := r.replayCache["C13"]; ok {
+				return rr
+			}
+			out, _ := r.runCorpusTest("x_children_shapes", "TestVerifReplayC13")
+			ok, detail := replayVerdict(out)
+			rr := &ReplayResult{Confirmed: ok, Input: "corpus template /verif/corpus/children-shapes rendered by the real generated code and runtime", Detail: detail}
+			r.replayCache["C13"] = rr
+			return rr
+		},
+		Packages: []string{"."},
+		Corpus:   true,
+		Extra:    func(r *Run) { r.VerifyGenerated(r.corpus, "C13") },
+		Assume: []string{
+			"one render = one shared context value (the children slot lives in it); getContext / InitializeContext trusted with that model",
+			"interface contract of Component.Render for components not under contract: they may clear the slot they were given, never install another one",
+			"programs: the regenerated corpus (generator/test-* and /verif/corpus/*), not all templates",
+		},
+	})
+	register(&PropConfig{
 		ID:       "C10",
 		Packages: []string{"./runtime", "."},
 		Corpus:   true,
